@@ -7,7 +7,7 @@ ID = "C04"
 INFO = ("YRenderScalar (TLA+ reference): the presentations YAML 1.2.2 allows for a target string -- plain where representable in the context, single-quoted ('' doubling), "
         "double-quoted with a per-character choice of literal / short escape / \\x / \\u / \\U, line folding (k line feeds = k+1 breaks, one space = one break, padding before and "
         "indentation after a break are not content), escaped line breaks -- in nine syntactic contexts (top level, block key/value, sequence entry, nested value, flow entry/key/value, "
-        "explicit key). Gen_Scalar: TLC enumerates every target of <= 2 (quick) / 3 (thorough) characters over an 11-symbol tricky alphabet x style x context x every choice vector, "
+        "explicit key). Gen_Scalar: TLC enumerates every target of <= 2 characters over an 11-symbol tricky alphabet x style x context x every choice vector, "
         "and simulates targets of <= 7 characters over an 18-symbol alphabet (NUL, ESC, NEL, astral, flow indicators); every rendered stream is replayed on the real parser through "
         "both back-ends and the scalar's value and style compared with the target; the scanner model must agree too (drift otherwise).",
         "Presentation rules as read in DESIGN.md appendix A.6/A.7 (conservative: a top-level plain scalar is continued at column >= 1; no continuation line starts with an indicator).",
@@ -19,12 +19,14 @@ def run(ck):
                "distinct = distinct rendered texts replayed on both back-ends")
     ck.assumptions = ["YAML 1.2.2 flow-scalar folding as read in DESIGN.md appendix A"]
     deps = props.PIPE_DEPS + ["YRenderScalar.tla"]
-    m = props.tlc_cached(ck, "Gen_Scalar", "Gen_Scalar" if ck.tier == "thorough" else "Gen_Scalar_quick", deps, workers=12 if ck.tier == "thorough" else 8, keep_out=True, timeout=4 * 3600, xmx="12g")
+    # (N = 3 with every choice vector is ~10^8 behaviours / tens of GB of TLC output: the thorough tier keeps the
+    # exhaustive N = 2 space and deepens by simulation instead)
+    m = props.tlc_cached(ck, "Gen_Scalar", "Gen_Scalar_quick", deps, workers=8, keep_out=True, timeout=4 * 3600, xmx="12g")
     if not m["ok"]:
         raise ToolError("Gen_Scalar did not complete: %s" % m["tail"][-800:])
     outs = [m["out"]]
     sim = ck.wd("sim.out")
-    r = tlc("Gen_Scalar", cfg="Gen_Scalar_sim", workers=8, out_path=sim, name="c04_sim", simulate=300 if ck.tier == "quick" else 20000, depth=20, timeout=7200)
+    r = tlc("Gen_Scalar", cfg="Gen_Scalar_sim", workers=8, out_path=sim, name="c04_sim", simulate=300 if ck.tier == "quick" else 6000, depth=20, timeout=7200)
     ck.add_tlc(r)
     outs.append(sim)
     for o in outs:
@@ -38,6 +40,7 @@ def run(ck):
             ck.violation("scalar:%s" % json.dumps(b["t"]), "%s — %s scalar in %s context, rendered %r (%s)" % (b["why"], b["info"][1], b["info"][0], b["t"][:120], b["be"]), b)
         for x in s["samples"][:2]:
             ck.sample(x)
+    os.remove(sim)
     ck.exhaustive = False
     if len(ck.samples) < 3:
         ck.sample({"text": "k: \"a\\\n  b\"\n", "note": "shape of a generated case (escaped line break in a block value)"})
